@@ -735,6 +735,29 @@ class Item:
         self.rewrite(s0, bs, "let mut %s = Vec::new();\n  let mut %s: usize = 0;/*@pre*/\n  while %s < %s.len()\n  /*@loop*/\n  {\n    let %s = &%s[%s];/*@body*/\n    let vx_e = " % (var, iv, iv, recv, p_, recv, iv), "R3-let-lazy-map")
         self.rewrite(be, semi + 1, ";\n    %s.push(vx_e);/*@tail*/\n    %s = %s + 1;\n  }" % (var, iv, iv), "R3-let-lazy-map")
 
+    def r3_for_each_stmt(self, fn, k):
+        """statement `RECV.iter().for_each(|P| BODY);` (BODY may assign captured variables: it is no longer a closure afterwards; no `return` / `?`)
+        ==>  let mut vx_i = 0; while vx_i < RECV.len() { let P = &RECV[vx_i]; BODY; vx_i += 1; }     (the definition of for_each; BODY stays in place)"""
+        k0, _, bo, end, _ = self.fn_span(fn)
+        hits = list(re.finditer(r"\.\s*iter\s*\(\s*\)\s*\.\s*for_each\s*\(", self.m[bo:end]))
+        if len(hits) < k:
+            raise Undecided("LOST-ANCHOR: R3 for-each-stmt #%d in fn %s of %s" % (k, fn, self.where()))
+        h = hits[k - 1]
+        par = bo + h.end() - 1
+        p_, bs, be, close = self._closure_after(par)
+        if re.search(r"\breturn\b|\?", self.m[bs:be]):
+            raise Undecided("R3 for-each-stmt: the closure body leaves early (return / ?)")
+        s0 = self._stmt_start(bo + h.start())
+        while s0 < bo + h.start() and self.m[s0].isspace():
+            s0 += 1
+        recv = re.sub(r"\s+", "", self.text[s0:bo + h.start()])
+        semi = self.m.find(";", close)
+        if not re.match(r"[A-Za-z_][A-Za-z0-9_.]*$", recv) or self.text[close + 1:semi].strip() or not re.match(r"[A-Za-z_]\w*$", p_):
+            raise Undecided("R3 for-each-stmt: statement shape not recognised at %s:%d" % (self.relpath, self.line_of(s0)))
+        iv = "vx_i" if k == 1 else "vx_i%d" % k
+        self.rewrite(s0, bs, "let mut %s: usize = 0;/*@pre*/\n    while %s < %s.len()\n    /*@loop*/\n    {\n      let %s = &%s[%s];/*@body*/\n      " % (iv, iv, recv, p_, recv, iv), "R3-for-each")
+        self.rewrite(be, semi + 1, ";/*@tail*/\n      %s = %s + 1;\n    }" % (iv, iv), "R3-for-each")
+
     def r3_find_map(self, fn, k):
         """let V = RECV.iter().find_map(|P| { S* ; E });  ==> index while-loop, first Some wins"""
         k0, _, bo, end, _ = self.fn_span(fn)
